@@ -71,7 +71,9 @@ def rule_shape_table(ctx):
                 vs = list(a[2])
             else:
                 conds.append(a)
-        effs = [(e[1], e[2]) for e in o["effects"] if e[0] == "call"] + [("store", nshow(e[1])) for e in o["effects"] if e[0] != "call"]
+        # effects on a local temporary (an iterator being advanced) are not effects of the hook: only what is reachable
+        # from its arguments counts
+        effs = [(e[1], e[2]) for e in o["effects"] if e[0] == "call" and e[2][0] == "arg"] + [("store", nshow(e[1])) for e in o["effects"] if e[0] != "call"]
         r = o["ret"]
         res = "ok" if r[0] == "ok" else ("err:" + models.error_const(r[1]) if r[0] == "err" else r[0])
         for v in vs:
